@@ -357,6 +357,8 @@ def c05(prop, tier, seed, work):
 
 def c06(prop, tier, seed, work):
     scs = gc_scenarios(tier, ["mem", "dir"])
+    for sc in scs:
+        sc["obs"] = ["disk"]
     for u, w in ((True, True), (True, False), (False, True)):
         scs.append(dict(name="pass-%s%s" % ("U" if u else "u", "W" if w else "w"), profile="gcpass", contents=["m1", "m2", "x1", "a1", "b3"], algs=["sha256"],
                         depth=(22, 36), num=(10, 100), stores=["mem", "dir"], obs=[], nrepos=2,
@@ -367,8 +369,10 @@ def c06(prop, tier, seed, work):
 
 def c10(prop, tier, seed, work):
     scs = [
-        dict(name="layout", profile="layout", contents=["m1", "m2", "x1", "a1", "b3"], algs=["sha256", "sha512"], depth=(26, 40), num=(25, 300),
+        dict(name="layout", profile="layout", contents=["m1", "m2", "x1", "x4", "a1", "b3"], algs=["sha256", "sha512"], depth=(26, 40), num=(25, 300),
              stores=STORES3, obs=["refs", "disk", "sess"], cfg={"emptyRepo": True}, mc_contents=["m1"], mc_depth=(4, 5)),
+        dict(name="layoutS", profile="layout", contents=["m1", "x4"], algs=["sha256"], depth=(18, 30), num=(25, 250),
+             stores=["dir", "mem"], obs=["disk", "sess"], cfg={"emptyRepo": True}, nrepos=1),
         dict(name="layout384", profile="layout", contents=["m1", "b3"], algs=["sha256", "sha384"], depth=(20, 30), num=(8, 80),
              stores=["dir", "mem"], obs=["disk", "sess"], cfg={"emptyRepo": True}, repos=["a", "a/b"]),
     ]
@@ -403,6 +407,15 @@ def foreign_programs(seed):
            {"op": "GC", "repo": "r1"}, {"op": "GCPass"}, {"op": "ProbeAll", "repo": "r1"}, {"op": "Restart"}, {"op": "ProbeAll", "repo": "r1"},
            blob("r2", "b1"), manput("r2", "m1", {"k": "tag", "v": "t2"}), {"op": "GC", "repo": "r2"}, {"op": "Restart"}]
     progs = []
+    tl = lambda r: {"op": "TagsList", "repo": r, "n": "", "ni": 0, "nc": "none", "last": 0, "method": "GET"}
+    lops = [tl("r1"), tl("r2"), tl("raw:emptydir"), {"op": "GC", "repo": "r1"}, {"op": "GC", "repo": "r2"}, {"op": "GCPass"}, {"op": "Restart"},
+            tl("r1"), tl("raw:emptydir"), blob("r2", "b1"), {"op": "Restart"}, tl("r2"), {"op": "Restart"}]
+    for k, (over, stores) in enumerate((({"readOnly": True}, ["dir"]), ({"readOnly": True, "emptyRepo": True, "untagged": True}, ["dir"]), ({}, ["memdir"]))):
+        cfg = dict(DEFAULT_CFG)
+        cfg.update(over)
+        progs.append({"id": "foreign-leftovers-%d" % k, "cfg": cfg, "contents": ["m1"], "algs": ["sha256"], "ntags": 3,
+                      "repos": ["pre/existing", "other"], "seed": seed, "tagstyle": 0, "pre": "leftovers", "sentinel": False, "ops": lops,
+                      "stores": stores})
     for pre in ("testrepo", "corrupt"):
         for k, over in enumerate(({"readOnly": True}, {"readOnly": True, "push": False}, {}, {"delete": False, "blobDelete": False})):
             cfg = dict(DEFAULT_CFG)
@@ -417,6 +430,8 @@ def c14(prop, tier, seed, work):
     scs = [
         dict(name="ro", profile="ro", contents=["m1", "m2", "x1", "a1"], algs=["sha256"], depth=(30, 44), num=(25, 300),
              stores=["dir"], obs=["refs"], reconf=RECONF, nrepos=2),
+        dict(name="ro2", profile="ro", contents=["m1", "b3"], algs=["sha256"], depth=(30, 44), num=(60, 400),
+             stores=["dir"], obs=[], reconf=RECONF, nrepos=2),
         dict(name="foreign", static_programs=foreign_programs, obs=[], focus={"C14F"}),
     ]
     return histories(prop, tier, seed, work, scs, "", "a history is non-trivial if it reconfigures the server (read-only / memory over directory / APIs off) after pushes and then sends write requests; distinct = distinct operation sequences",
@@ -425,7 +440,7 @@ def c14(prop, tier, seed, work):
 
 def c16(prop, tier, seed, work):
     scs = [
-        dict(name="iso", profile="iso", contents=["m1", "x4", "a1", "b3"], algs=["sha256"], depth=(26, 40), num=(25, 300),
+        dict(name="iso", profile="iso", contents=["m1", "x4", "a1", "b3", "xe", "me"], algs=["sha256"], depth=(26, 40), num=(25, 300),
              stores=STORES3, obs=["refs", "sess"], nrepos=3, repos=["a", "a/b", "ab"], sentinel=True),
         dict(name="iso2", profile="iso", contents=["m1", "b3"], algs=["sha256"], depth=(20, 30), num=(10, 100),
              stores=["dir", "mem"], obs=["sess"], nrepos=3, repos=["x/y/z", "x/y", "x"], sentinel=True),
